@@ -138,6 +138,38 @@ Proof.
 Qed.
 Print Assumptions C18_monitors.
 
+(* ---- doRevalidate between startRequest and handleResponse (xstep / RevalPing: the remote node's PONG, announced
+   seq and ENR answer are the inputs; started = the record seq captured by startRequest) *)
+Theorem C18_reval_outcome : forall s0 ok sq enr,
+  fst (reval_outcome s0 ok sq enr) = ok /\
+  (forall r, snd (reval_outcome s0 ok sq enr) = Some r -> s0 < sq /\ enr = Some r).
+Proof. exact reval_outcome_spec. Qed.
+Print Assumptions C18_reval_outcome.
+
+Theorem C18_xstep_inv : forall x o, Inv (core x) -> xop_wf o -> exists x', xstep x o = Some x' /\ Inv (core x').
+Proof. exact xstep_inv. Qed.
+Print Assumptions C18_xstep_inv.
+
+(* a node that ANSWERED the ping - whatever became of the ENR request - costs no entry its place or credit *)
+Theorem C18_answered_ping_keeps_credit : forall x id sq enr pick x' e,
+  Inv (core x) -> xstep x (RevalPing id true sq enr pick) = Some x' -> In e (all_ents (core x)) ->
+  exists e', In e' (all_ents (core x')) /\ eid e' = eid e /\ checks e <= checks e'.
+Proof. exact answered_ping_keeps_credit. Qed.
+Print Assumptions C18_answered_ping_keeps_credit.
+
+(* credit is lost (an entry disappears or its livenessChecks go down) only when the PING failed *)
+Theorem C18_credit_lost_only_if_ping_failed : forall x id ok sq enr pick x' e,
+  Inv (core x) -> xstep x (RevalPing id ok sq enr pick) = Some x' -> In e (all_ents (core x)) ->
+  (~ In (eid e) (entry_ids (core x')) \/
+   exists e', In e' (all_ents (core x')) /\ eid e' = eid e /\ checks e' < checks e) ->
+  ok = false.
+Proof. exact credit_lost_only_if_ping_failed. Qed.
+Print Assumptions C18_credit_lost_only_if_ping_failed.
+
+Theorem C18_credit_monitor : forall t o t', Inv t -> step t o = Some t' -> pol_credit_b t o t' = true.
+Proof. exact pol_credit_holds. Qed.
+Print Assumptions C18_credit_monitor.
+
 (* the premises are satisfiable: a full bucket is reached, a newcomer only becomes a replacement, the executable
    policy predicates hold on that step, and a later dead answer promotes the replacement *)
 Example C18_nonvacuous :
